@@ -244,6 +244,7 @@ def c11(pid, tier, seed, t0):
     return run_stages(pid, tier, seed, t0, "exploration", stages,
                       required=("binary_repetition_first_of_tail_fen_clock_0", "binary_repetition_first_of_tail_after_capture",
                                 "binary_repetition_first_of_tail_after_pawn_move", "binary_repetition_later_in_tail",
+                                "binary_repetition_second_go_on_one_position_command", "tail_positions_audited",
                                 "repetitions_observed", "repetition_of_oldest_position_in_window",
                                 "clock_ge_100_observed", "terminal_at_clock_ge_100", "fen_start_with_nonzero_clock",
                                 "null_moves_in_history", "bare_kings", "king_and_minor",
@@ -289,7 +290,7 @@ def c19(pid, tier, seed, t0):
                       required=("insert_must_not_displace_exact", "insert_over_older_search", "insert_policy_free",
                                 "slot_collision_different_keys", "probe_hits", "probe_misses", "reset", "resize",
                                 "occupancy_checks", "ops_on_zero_slot_table", "generation_wrapped_past_255",
-                                "probes_after_reset_or_resize", "size_sweep_tables"),
+                                "probes_after_reset_or_resize", "size_sweep_tables", "fill_histories"),
                       assumptions=["search identity = the 8-bit generation the API exposes; ages 256 searches apart "
                                    "alias by construction and are treated as one search by the model",
                                    "a resize to the current size is a documented no-op and is never issued"])
@@ -319,6 +320,9 @@ def c04(pid, tier, seed, t0):
         H("search-asan", "c04", "asan", group="c04-asan", tiers=("thorough",), args=["--cases", "6000", "--depth-budget", "6"]),
         M("search-miri", "miri-c04", [["--root-lo", str(i), "--root-hi", str(i + 1), "--depth", "3"] for i in range(0, 10, 2)]),
         P("binary-sessions", _pm2("c04_stage")),
+        # the search plays the table's move without a legality test, at the root too: its safety rests on a probe never
+        # answering for another position, so the table model (C19's monitor) runs here as well
+        H("tt-model-checked", "c19", "checked", args=["--histories", "96", "--max-ops", "600", "--no-size-sweep"], group="c04-tt"),
     ]
     return run_stages(pid, tier, seed, t0, "exploration", stages,
                       required=SEARCH_FEATURES + ("searches", "binary_release_recursion_100_plies_plus", "binary_debug_recursion_66_plies_plus"),
@@ -335,7 +339,8 @@ def c08(pid, tier, seed, t0):
                       required=SEARCH_FEATURES + ("info_lines", "mate_for_root_side", "mate_against_root_side",
                                                   "mate_distance_3", "mate_distance_5", "searches_on_used_tables",
                                                   "binary_info_lines", "binary_mate_announcements",
-                                                  "binary_searches_reporting_lines_of_32_plies_or_more"),
+                                                  "binary_searches_reporting_lines_of_32_plies_or_more",
+                                                  "binary_searches_running_out_of_depths"),
                       assumptions=["oracle = refchess replay of every reported line"])
 
 
@@ -345,7 +350,8 @@ def c09(pid, tier, seed, t0):
                       required=("triples_enumerated", "stop_points_enumerated", "followup_searches",
                                 "fallback_to_first_picked_move", "pos_quiescence_heavy", "expired_limit_searches",
                                 "completed_iterations_at_abort_1", "completed_iterations_at_abort_5",
-                                "prior_state_from_another_position", "prior_state_warm_same_position"),
+                                "prior_state_from_another_position", "prior_state_warm_same_position",
+                                "followup_searches_on_abort_path", "heavy_root_with_game_record_and_warm_base"),
                       assumptions=["exhaustive in k for each sampled (position, depth, prior state); the triples are "
                                    "sampled", "the polling points are the program's own: hook H1 only makes the flag "
                                    "read true from poll k on",
@@ -355,7 +361,7 @@ def c09(pid, tier, seed, t0):
 def c12(pid, tier, seed, t0):
     stages = [H("determinism-checked", "c12", "checked"), P("ucinewgame-binary", _pm2("c12_stage"))]
     return run_stages(pid, tier, seed, t0, "exploration", stages,
-                      required=("binary_ucinewgame_right_after_bestmove_with_delay", "binary_ucinewgame_then_go_without_position", "reset_then_compare_with_fresh", "second_run_under_load",
+                      required=("binary_ucinewgame_right_after_bestmove_with_delay", "binary_ucinewgame_then_go_without_position", "binary_fresh_engine_without_any_preamble", "reset_then_compare_with_fresh", "second_run_under_load",
                                 "long_chain_ge_255_generations", "hash_1mb", "hash_64mb"),
                       assumptions=["transcript = best move + depth, seldepth, score, nodes, hashfull, line of every "
                                    "iteration; time and nps excluded"])
@@ -366,7 +372,7 @@ def c14(pid, tier, seed, t0):
               H("limits-opt", "c14", "opt", group="c14-opt"),
               P("timed-release", _pm2("c14_stage"))]
     return run_stages(pid, tier, seed, t0, "exploration", stages,
-                      required=("timed_searches", "timed_searches_at_200ms", "timed_searches_quiescence_heavy", "timed_long_sessions_past_256_searches", "movetime_with_overhead_cases", "grid_tuples", "random_tuples", "remaining_below_200ms",
+                      required=("timed_searches", "timed_searches_at_200ms", "timed_searches_quiescence_heavy", "timed_searches_after_option_in_bestmove_window", "timed_searches_whose_thread_started_after_the_clock_ran_out", "timed_long_sessions_past_256_searches", "movetime_with_overhead_cases", "grid_tuples", "random_tuples", "remaining_below_200ms",
                                 "only_one_sides_time_supplied", "moves_to_go_1", "moves_to_go_u32_max",
                                 "overhead_exactly_half", "fixed_movetime_cases"),
                       assumptions=["limits read through hook H2", "bound checked with a tolerance of one f32 ulp of the "
@@ -403,7 +409,8 @@ def c13(pid, tier, seed, t0):
     return run_stages(pid, tier, seed, t0, "exploration", stages,
                       required=("option_Hash_values", "option_Threads_values", "option_Move_Overhead_values", "hash_0",
                                 "hash_1024", "values_set_before_first_search", "values_set_between_searches",
-                                "sessions_setting_options_right_after_bestmove"),
+                                "sessions_setting_options_right_after_bestmove", "values_set_after_the_position_command",
+                                "values_followed_by_ucinewgame"),
                       assumptions=["the quantifier is what the binary itself advertises in its 'option' lines",
                                    "the free-text SyzygyPath option is outside the property"])
 
